@@ -57,6 +57,7 @@ func main() {
 				rep.Unk("engine", "panic", "", fmt.Sprint(e)+" :: "+string(debug.Stack()))
 			}
 		}()
+		core.CurProg = p
 		rs(&rules.Ctx{P: p, R: rep, Tier: *tier})
 	}()
 	var extra map[string]any
